@@ -8,6 +8,82 @@ from . import common
 SIG = ('param', 'sig')
 
 
+VALUE_FREE = {'len', 'argmax', 'argmin', 'nonzero', 'flatnonzero', 'where', 'searchsorted', 'argsort', 'shape', 'size', 'ndim', 'isnan', 'any', 'all', 'sign'}
+
+
+def sample_differences(fnode, sig_params):
+    """(line, text) of every subtraction whose two operands both carry raw sample values (simple forward taint from the signal parameter: subscripts, arithmetic,
+    value-preserving calls; positions, lengths, comparisons and boolean masks carry no sample value)"""
+    import ast
+    tainted = set(sig_params)
+
+    def carries(n):
+        if isinstance(n, ast.Name):
+            return n.id in tainted
+        if isinstance(n, ast.Subscript):
+            return carries(n.value)
+        if isinstance(n, ast.BinOp):
+            return carries(n.left) or carries(n.right)
+        if isinstance(n, ast.UnaryOp):
+            return not isinstance(n.op, ast.Not) and carries(n.operand)
+        if isinstance(n, ast.IfExp):
+            return carries(n.body) or carries(n.orelse)
+        if isinstance(n, ast.Call):
+            name = n.func.attr if isinstance(n.func, ast.Attribute) else n.func.id if isinstance(n.func, ast.Name) else ''
+            if name in VALUE_FREE:
+                return False
+            recv = carries(n.func.value) if isinstance(n.func, ast.Attribute) and not (isinstance(n.func.value, ast.Name) and n.func.value.id in ('np', 'numpy')) else False
+            return recv or any(carries(a) for a in n.args)
+        if isinstance(n, (ast.Tuple, ast.List)):
+            return any(carries(e) for e in n.elts)
+        return False
+    for _ in range(3):                                   # to a fixpoint over loops
+        for st in ast.walk(fnode):
+            if isinstance(st, ast.Assign) and carries(st.value):
+                for t in st.targets:
+                    for x in ast.walk(t):
+                        if isinstance(x, ast.Name) and isinstance(x.ctx, ast.Store):
+                            tainted.add(x.id)
+            elif isinstance(st, ast.AugAssign) and carries(st.value) and isinstance(st.target, ast.Name):
+                tainted.add(st.target.id)
+    out = []
+    for n in ast.walk(fnode):
+        if isinstance(n, ast.BinOp) and isinstance(n.op, ast.Sub) and carries(n.left) and carries(n.right):
+            out.append((n.lineno, ast.unparse(n)))
+        elif isinstance(n, ast.AugAssign) and isinstance(n.op, ast.Sub) and carries(n.target) and carries(n.value):
+            out.append((n.lineno, ast.unparse(n)))
+    return out
+
+
+def sample_diff(rep, model):
+    """the midpoint search works on the recording as it is stored: raw counts of an unsigned integer type are a documented input of the kind 'integer-valued signal',
+    and for them a difference of two samples wraps around whenever the second is larger"""
+    import ast
+    rep.rule('SAMPLE-DIFF', 'no function of the midpoint search (find_zerox and what it reaches) subtracts one raw sample value from another: the half-height level is formed '
+                            'from a sum, samples meet the level only in comparisons. A difference last - first is negative on every decay and wraps around for unsigned integer '
+                            'recordings (raw ADC counts), which moves the level outside the flank so that no crossing is found')
+    n = 0
+    for q in sorted(common.reachable(model, ['find_zerox'])):
+        f = model.funcs[q]
+        if not f.mod.endswith('cyclepoints.zerox'):
+            continue
+        n += 1
+        sigs = [p for p in f.params if p == 'sig' or p.startswith('sig_')]
+        hits = sample_differences(f.node, sigs)
+        if hits:
+            rep.violation('SAMPLE-DIFF', f.name, f'{f.path}:{hits[0][0]} {f.name}', expected='sums, scalings and comparisons of sample values only',
+                          found='; '.join(t for _, t in hits[:3]) + ': wraps around when the signal is held in an unsigned integer type')
+        else:
+            rep.ok('SAMPLE-DIFF', f.name, f'{f.path}:{f.node.lineno} {f.name}', found='no difference of two sample values')
+    ex = ast.parse('def f(sig, a, b):\n    seg = sig[a:b + 1]\n    mid = seg[0] + (seg[-1] - seg[0]) / 2.\n    k = np.argmax(seg) - a\n    return mid, k\n').body[0]
+    got = sample_differences(ex, ['sig'])
+    if len(got) == 1 and 'seg[-1] - seg[0]' in got[0][1]:
+        rep.ok('SAMPLE-DIFF', 'embedded example', 'sa/rules/c03.py', found='fires on the sample difference, silent on the index difference', nontrivial=False)
+    else:
+        rep.unresolved('SAMPLE-DIFF', 'embedded example', 'sa/rules/c03.py', f'the taint query no longer behaves as expected on the embedded example: {got}')
+    rep.floor('midpoint-search functions scanned for sample differences', n, 3)
+
+
 def check(rep, model, tier):
     rep.rule('MID-DEF', '_find_flank_midpoints == reference (sa/refspec/cyclepoints.py) for rise / decay: inclusive window [start, end], half-height level, all-zero and '
                         'inverted-flank fallbacks to the temporal centre, floor(median(crossings)) otherwise, window start added back')
@@ -19,6 +95,7 @@ def check(rep, model, tier):
     rep.rule('ARGS-INTACT', 'find_zerox (closed over its helpers) writes through none of its arguments: the midpoints are defined relative to the caller\'s signal and extrema arrays, '
                             'which the caller goes on to use for the same cycles')
     common.args_intact(rep, model, ['find_zerox'], why='signal and extrema are shared with the caller')
+    sample_diff(rep, model)
     rep.assumptions += ['np.median / np.sum / np.abs as documented; that the stored sample is the median crossing for a concrete signal follows from numpy semantics (not decided)']
     f = model.find('_find_flank_midpoints')
     site = f'{f.path}:{f.node.lineno} _find_flank_midpoints'
